@@ -75,6 +75,11 @@ class CleanPass(FunctionPass):
     def find_single_predecessor_block(self, function):
         """Find a block with a single predecessor"""
         for block in function:
+            # The function starts at the entry block, it can not be
+            # appended to another block:
+            if block.is_entry:
+                continue
+
             preds = block.predecessors
 
             # Check for amount of predecessors:
@@ -107,6 +112,11 @@ class CleanPass(FunctionPass):
         self.logger.debug(
             "Inserting %s at the end of %s", block2.name, block1.name
         )
+
+        # The second block has one predecessor, its phis select one value:
+        for phi in block2.phis:
+            phi.replace_by(phi.get_value(block1))
+            phi.remove_from_block()
 
         # Remove the last jump:
         last_jump = block1.last_instruction
